@@ -28,6 +28,7 @@ import (
 	"context"
 	"crypto/sha256"
 	"encoding/binary"
+	"errors"
 	"fmt"
 	"testing"
 
@@ -80,13 +81,27 @@ func vbwSafe(f func() error) (res string) {
 		}
 	}()
 	if err := f(); err != nil {
-		s := err.Error()
-		if len(s) > 200 {
-			s = s[:200]
-		}
-		return s
+		return vbwErrText(err)
 	}
 	return ""
+}
+
+// vbwErrText is never empty for a non-nil error.  (btcd reports an invalid
+// taproot key-spend signature as txscript.Error{ErrTaprootSigInvalid, ""},
+// whose Error() text is EMPTY: taken as a string it would read "accepted".)
+func vbwErrText(err error) string {
+	s := err.Error()
+	var se txscript.Error
+	if errors.As(err, &se) {
+		s = se.ErrorCode.String() + ": " + se.Description
+	}
+	if s == "" {
+		s = fmt.Sprintf("error of type %T with an empty message", err)
+	}
+	if len(s) > 200 {
+		s = s[:200]
+	}
+	return s
 }
 
 func vbwPreimage(ci int, n uint64) (pre [32]byte, hash [32]byte) {
